@@ -62,6 +62,7 @@ func (e *Engine) verifyFunction(fn *ssa.Function, con *Contract, pathLimit int) 
 	fr := &Frame{fn: fn, vals: map[ssa.Value]Val{}, block: fn.Blocks[0], visited: map[*ssa.BasicBlock]bool{}}
 	st.stack = []*Frame{fr}
 	env := &Env{x: x, st: st, vars: map[string]TV{}, lets: map[string]*Expr{}, frame: fr}
+	env.old = &HeapSnap{m: map[string]*HeapVer{}, epoch: "0", clock: st.clock0}
 	if fn.Pkg != nil {
 		env.pkg = fn.Pkg.Pkg
 	} else if con != nil {
@@ -106,6 +107,12 @@ func (e *Engine) verifyFunction(fn *ssa.Function, con *Contract, pathLimit int) 
 	}
 	x.env0 = env
 	if con != nil {
+		nl := len(e.loops(fn).headers)
+		for _, cl := range con.Clauses {
+			if cl.Kind == "invariant" && cl.Loop > nl {
+				sfail("contract names loop %d but %s has %d loop(s)", cl.Loop, fn.Name(), nl)
+			}
+		}
 		for _, cl := range con.Clauses {
 			if cl.Kind == "let" {
 				env.lets[cl.LetVar] = cl.E
@@ -326,3 +333,92 @@ func famDisplay(f string) string {
 }
 
 var _ = types.Typ
+
+// verifyLemma checks a lemma (a contract without code): requires ==> ensures for all parameter values.
+func (e *Engine) verifyLemma(c *Contract) (res *FnResult) {
+	res = &FnResult{Fn: "lemma/" + c.FnName, Contract: c, File: c.File}
+	x := &Exec{eng: e, con: c, limit: 1, lemma: "lemma/" + c.FnName}
+	defer func() {
+		if r := recover(); r != nil {
+			switch er := r.(type) {
+			case unsupported:
+				res.Err = er.Error()
+			case specError:
+				res.Err = er.Error()
+			default:
+				panic(r)
+			}
+		}
+		res.VCs = x.vcs
+		res.Libs = keys(x.libs)
+	}()
+	st := &State{heaps: map[string]*HeapVer{}, anchors: map[string]*Anchor{}, callCount: map[string]int{}, held: map[string]bool{},
+		lockSnap: map[string]*HeapSnap{}, ghost: map[string]Term{}, epoch: "0"}
+	st.alloc = baseHeap("0", "alloc", []Sort{SInt}, SBool)
+	st.alloc0 = st.alloc
+	reg.declare("u_clock0", "(declare-const u_clock0 Int)")
+	st.clock = Term{"u_clock0", SInt}
+	st.clock0 = st.clock
+	env := &Env{x: x, st: st, vars: map[string]TV{}, lets: map[string]*Expr{}, pkg: e.typesPkg(c.Pkg)}
+	for i, p := range c.Params {
+		t := e.specType(c.PTypes[i], c.Pkg)
+		if t == nil {
+			sfail("lemma %s: unknown type %q", c.FnName, c.PTypes[i])
+		}
+		v := st.freshVal(t, "lem_"+p)
+		st.assumeAllocated(v)
+		env.vars[p] = TV{v, t}
+	}
+	x.env0 = env
+	for _, cl := range c.Clauses {
+		if cl.Kind == "let" {
+			env.lets[cl.LetVar] = cl.E
+		}
+	}
+	for _, cl := range c.Clauses {
+		if cl.Kind == "requires" {
+			st.assume(env.evalBool(cl.E))
+		}
+	}
+	x.vcs = append(x.vcs, &VC{Ob: x.fnName() + "/cover[pre]", Fn: x.fnName(), Kind: "cover", Clause: "requires is satisfiable",
+		Asserts: st.asserts[:len(st.asserts):len(st.asserts)], Goal: TFalse})
+	n := 0
+	for _, cl := range c.Clauses {
+		if cl.Kind == "ensures" {
+			x.emit(st, "ensures", clauseLabel(cl, n), cl.Text, cl.Props, env.evalBool(cl.E))
+			n++
+		}
+	}
+	return res
+}
+
+func (e *Engine) specType(name, pkg string) types.Type {
+	if strings.HasPrefix(name, "[]") {
+		el := e.specType(name[2:], pkg)
+		if el == nil {
+			return nil
+		}
+		return types.NewSlice(el)
+	}
+	if strings.HasPrefix(name, "*") {
+		el := e.specType(name[1:], pkg)
+		if el == nil {
+			return nil
+		}
+		return types.NewPointer(el)
+	}
+	switch name {
+	case "string", "int", "bool", "error":
+		return e.typeByName(name)
+	case "time":
+		return e.typeByName("time.Time")
+	}
+	if !strings.Contains(name, ".") && pkg != "" {
+		if tp := e.typesPkg(pkg); tp != nil {
+			if o := tp.Scope().Lookup(name); o != nil {
+				return o.Type()
+			}
+		}
+	}
+	return e.typeByName(name)
+}
